@@ -4,7 +4,10 @@ CONSTANTS
   MaxD = 4
   MaxT = 4
   Variant = "ok"
+  Volumes <- VolumesT
 INVARIANT TypeOK
 INVARIANT AllEqual
 INVARIANT ScaleIsOne
+INVARIANT EdgesAgree
+INVARIANT PlacementAgrees
 CHECK_DEADLOCK FALSE
